@@ -8,7 +8,7 @@ class C18Kernel(KernelProp):
     kinds = ("ctx",)
     id = "C18"
     tags = ("C18",)
-    quick_cases = 800
+    quick_cases = 1600
     thorough_cases = 50000
     n_ops = (12, 45)
     weights = {"new": 12, "cancelget": 2, "enter": 12, "exit": 5, "add": 22, "addf": 12, "getnw": 16, "get": 10, "finish": 4,
